@@ -2487,7 +2487,8 @@ class SSHConnection(SSHPacketHandler, asyncio.Protocol):
         self.logger.debug1('Completed key exchange')
 
     def _process_userauth_request(self, _pkttype: int, _pktid: int,
-                                  packet: SSHPacket) -> None:
+                                  packet: SSHPacket) -> \
+            Optional[Awaitable[None]]:
         """Process a user authentication request"""
 
         username_bytes = packet.get_string()
@@ -2513,6 +2514,11 @@ class SSHConnection(SSHPacketHandler, asyncio.Protocol):
             if self._auth_final:
                 raise ProtocolError('Unexpected userauth request')
         else:
+            # Cancel any auth still in progress before the username can
+            # change, so it can't complete on behalf of the new user
+            if self._auth:
+                self._auth.cancel()
+
             if username != self._username:
                 self.logger.info('Beginning auth for user %s', username)
 
@@ -2521,7 +2527,12 @@ class SSHConnection(SSHPacketHandler, asyncio.Protocol):
             else:
                 begin_auth = False
 
-            self.create_task(self._finish_userauth(begin_auth, method, packet))
+            # Hold off on processing later packets until this request has
+            # been set up, so pipelined requests can't see each other's
+            # username or authorized keys
+            return self._finish_userauth(begin_auth, method, packet)
+
+        return None
 
     async def _finish_userauth(self, begin_auth: bool, method: bytes,
                                packet: SSHPacket) -> None:
